@@ -8,7 +8,7 @@ for l in open(sys.argv[1]):
     if m: res[m.group(1)]=(m.group(2),m.group(4) or '')
 rows=["| id | change | result | first failing obligation(s) |","|---|---|---|---|"]
 def key(s):
-    m=re.match(r'(C\d+)-(r2)?m(\d+)',s); return (m.group(1), 1 if m.group(2) else 0, int(m.group(3)))
+    m=re.match(r'(C\d+)-(?:r(\d))?m(\d+)',s); return (m.group(1), int(m.group(2) or 1), int(m.group(3)))
 for s in sorted(os.listdir('/verif/seeded'),key=key):
     meta=json.load(open(f'/verif/seeded/{s}/meta.json'))
     summ=re.sub(r'\s+',' ',meta.get('summary','')).replace('|','/')
